@@ -2,9 +2,9 @@
 import os, sys, json, time, subprocess, hashlib, glob, traceback, collections, multiprocessing, random, re
 import z3
 
-VERIF = '/verif'
+VERIF = os.environ.get('VERIF_OUT') or os.path.dirname(os.path.dirname(os.path.abspath(__file__)))     # evidence / replays / known findings live next to the code
 REPO = '/repo'
-CACHE = os.path.join(VERIF, '.cache')
+CACHE = '/verif/.cache'      # shared cargo build caches (dependency artefacts only; the crate and the MIR are rebuilt on every run)
 MIR_TARGET = os.path.join(CACHE, 'mir-target')
 ENV = dict(os.environ, CARGO_NET_OFFLINE='true')
 
@@ -18,21 +18,25 @@ def build_mir():
     """regenerate MIR from /repo's current working tree (dependency artefacts are cached, the crate itself is always rebuilt)"""
     t0 = time.time()
     os.makedirs(CACHE, exist_ok=True)
-    for f in glob.glob(os.path.join(MIR_TARGET, 'debug', 'deps', 'ats_smart_contract-*.mir')):
-        os.remove(f)
     env = dict(ENV, CARGO_TARGET_DIR=MIR_TARGET)
-    os.utime(os.path.join(REPO, 'src', 'lib.rs'))
-    rc, out, err = sh(['cargo', 'rustc', '--offline', '--lib', '--crate-type', 'rlib', '--', '--emit=mir', '-C', 'debug-assertions=off', '-C', 'overflow-checks=on'], cwd=REPO, env=env)
-    files = glob.glob(os.path.join(MIR_TARGET, 'debug', 'deps', 'ats_smart_contract-*.mir'))
-    if rc != 0 or not files:
+    outdir = os.path.join(CACHE, 'mir')
+    os.makedirs(outdir, exist_ok=True)
+    out_file = os.path.join(outdir, 'ats_%d.mir' % os.getpid())
+    if os.path.exists(out_file):
+        os.remove(out_file)
+    os.utime(os.path.join(REPO, 'src', 'lib.rs'))          # force rustc to run again even if cargo thinks the crate is fresh
+    rc, out, err = sh(['cargo', 'rustc', '--offline', '--lib', '--crate-type', 'rlib', '--', '--emit=mir=' + out_file, '-C', 'debug-assertions=off', '-C', 'overflow-checks=on'], cwd=REPO, env=env)
+    if rc != 0 or not os.path.exists(out_file):
         raise RuntimeError('MIR build failed:\n' + err[-3000:])
-    text = open(max(files, key=os.path.getmtime)).read()
+    text = open(out_file).read()
+    os.remove(out_file)
     return text, time.time() - t0
 
 
 def build_replay():
     t0 = time.time()
-    rc, out, err = sh(['bash', os.path.join(VERIF, 'replay', 'build.sh')], cwd=os.path.join(VERIF, 'replay'))
+    here = os.path.dirname(os.path.dirname(os.path.abspath(__file__)))
+    rc, out, err = sh(['bash', os.path.join(here, 'replay', 'build.sh')], cwd=os.path.join(here, 'replay'))
     if rc != 0:
         raise RuntimeError('replay build failed:\n' + err[-3000:])
     return time.time() - t0
